@@ -265,7 +265,7 @@ func step(me int, site int) {
 	if sStallOn {
 		stallCheck()
 	}
-	if sGCRate != 0 && rnd()%sGCRate == 0 {
+	if sGCRate != 0 && sGCFired < 48 && rnd()%sGCRate == 0 { // a forced collection costs milliseconds: bounded per run
 		sGCFired++
 		runtime.GC()
 	}
